@@ -170,6 +170,25 @@ Theorem C07_claiming_twice_pays_what_claiming_once_pays : forall wA wB wC sender
   forall d, out_amt msgsC d = out_amt msgs1 d + out_amt msgs2 d.
 Proof. exact claim_twice_single_lp. Qed.
 
+(* ... and for a user staking ANY number of LP denoms (the walk of the first claim over the denoms is framed denom by denom:
+   each step leaves the farms and weight histories of the other denoms as they were) *)
+Theorem C07_claiming_twice_pays_what_claiming_once_pays_any_number_of_lp_denoms :
+  forall wA wB wC sender c u1 u2 sA sB sC msgs1 msgs2 msgsC,
+  w_fm wC = w_fm wA -> w_fm wB = sA ->
+  lc_get (fm_last_claimed (w_fm wA)) sender = Some c -> c < u1 < u2 -> u1 < U64_MAX ->
+  claim wA sender [] (Some u1) = Ok (sA, msgs1) ->
+  claim wB sender [] (Some u2) = Ok (sB, msgs2) ->
+  claim wC sender [] (Some u2) = Ok (sC, msgsC) ->
+  NoDup (map f_id (fm_farms (w_fm wA))) ->
+  (forall f, In f (fm_farms (w_fm wA)) -> 0 <= f_claimed f <= amount_of (f_asset f) /\ amount_of (f_asset f) <= U128_MAX) ->
+  String.eqb FM sender = false ->
+  (forall lp, In lp (unique_lp_denoms (positions_by_receiver (w_fm wA) sender true)) ->
+     exists e1 w1 e0c w0c,
+       w_latest (fm_weights (w_fm wA)) sender lp = Some (e1, w1) /\ c <= e1 <= u1 + 1 /\
+       w_earliest (fm_weights (w_fm wA)) FM lp = Some (e0c, w0c) /\ e0c <= c + 1) ->
+  forall d, out_amt msgsC d = out_amt msgs1 d + out_amt msgs2 d.
+Proof. exact claim_twice. Qed.
+
 (* ... on a real world (kernel-evaluated): alice claims up to 3 then up to 4: 262 + 262; at once up to 4: 524 *)
 Theorem C07_claiming_twice_example : twice_statement.
 Proof. exact twice_example. Qed.
@@ -192,3 +211,4 @@ Print Assumptions C07_split_example.
 Print Assumptions C07_one_claim_pays_what_two_claims_pay_per_lp_denom.
 Print Assumptions C07_claiming_twice_pays_what_claiming_once_pays.
 Print Assumptions C07_claiming_twice_example.
+Print Assumptions C07_claiming_twice_pays_what_claiming_once_pays_any_number_of_lp_denoms.
